@@ -70,7 +70,46 @@ func c12After(w *World, path []fsx.Op, r fsx.Reply, implFail bool, mis *reffs.Mi
 	}
 }
 
+// a file of 506 blocks of real data: truncating or removing it frees just as many blocks as one transaction can take,
+// and the in-transaction free may stop a few blocks early (the file stays marked as shrinking)
+var c12WindowSetup = func() []fsx.Op {
+	s := []fsx.Op{{K: "CREATE", H: "root", N: "f"}}
+	for i := 0; i < 6; i++ {
+		n := uint64(100)
+		if i == 5 {
+			n = 6
+		}
+		s = append(s, fsx.Op{K: "WRITE", H: "root/f", Off: uint64(i) * 100 * 4096, Cnt: n * 4096, Pat: byte(0x61 + i), Stable: 2})
+	}
+	return s
+}()
+
+func c12WindowAfter(w *World, path []fsx.Op, r fsx.Reply, implFail bool, mis *reffs.Mismatch, viol func(sig, detail string)) {
+	if mis != nil {
+		viol(mis.Rule, mis.Msg+"\nreply: "+r.Brief())
+		return
+	}
+	if d := w.CompareDump(true); d != "" {
+		viol("dump", d)
+		return
+	}
+	vrt.Quiesce()
+	fr := w.Fsck()
+	for _, e := range fr.Errors {
+		// (only what re-exposes old bytes: a block still attached beyond the size and the pending-shrink mark;
+		// other structural rules are C04's business)
+		if ruleOf(e) == "block-beyond-size" {
+			viol("fsck|"+ruleOf(e), e)
+		}
+	}
+}
+
 func init() {
+	RegisterSeq("c12.window", &SeqSpec{Prop: "C12", DiskSize: 3000, Setup: c12WindowSetup, After: c12WindowAfter,
+		Key: func(w *World) string { w.Probe = &fsx.Probe{Full: 4 << 20}; return w.defaultKey() },
+		Alphabet: []fsx.Op{{K: "SETATTR", H: "root/f", Size: 0}, {K: "SETATTR", H: "root/f", Size: 100}, {K: "SETATTR", H: "root/f", Size: 2 * 4096}, {K: "SETATTR", H: "root/f", Size: 4*4096 + 9},
+			{K: "SETATTR", H: "root/f", Size: 506 * 4096}, {K: "SETATTR", H: "root/f", Size: 600 * 4096}, {K: "REMOVE", H: "root", N: "f"}, {K: "CREATE", H: "root", N: "f"}, {K: "CREATE", H: "root", N: "g"},
+			{K: "WRITE", H: "root/f", Off: 0, Cnt: 10, Pat: 0x71, Stable: 2}, {K: "WRITE", H: "root/g", Off: 505 * 4096, Cnt: 10, Pat: 0x72, Stable: 2}, {K: "SETATTR", H: "root/g", Size: 510 * 4096}, {K: "RESTART"}}})
 	Checks["C12"] = C12
 	RegisterSeq("c12.tiny12", &SeqSpec{Prop: "C12", DiskSize: 1539 + 1 + 12, Alphabet: c12Alphabet(), After: c12After, AllowImplFail: true})
 	RegisterSeq("c12.tiny40", &SeqSpec{Prop: "C12", DiskSize: 1539 + 1 + 40, Alphabet: c12Alphabet(), After: c12After, AllowImplFail: true})
@@ -83,10 +122,11 @@ func C12(r *report.Report, tier string) {
 	}
 	r.Only = map[string]bool{"C12": true}
 	al := c12Alphabet()
-	r.Rule = fmt.Sprintf("block recycling on disks with 12 and 40 data blocks (every freed block is reallocated within one or two operations): breadth-first search to depth %d over %d symbols - fill f with pattern A over 1/2/9 blocks, fill g with pattern B, truncate to aligned and unaligned sizes, grow, partial-block writes at several offsets, writes past the end, remove, re-create, restart; after every transition every file is read in full and compared byte for byte with the reference (a byte never written since the last truncation below it is 0; no pattern of another or deleted file); plus every crash image of every history of depth <=%d over a sub-alphabet, recovered and compared byte-exactly with the prefix states; plus crash images (quick: 120 per history) of truncations of a 530-block file to sizes inside a block, whose freeing takes several background transactions: after recovery every surviving file is written across its end and grown (one recovery schedule) or written far beyond its end (the other), and the part in between must read as zeros", depth, len(al), cdepth)
+	r.Rule = fmt.Sprintf("block recycling on disks with 12 and 40 data blocks (every freed block is reallocated within one or two operations): breadth-first search to depth %d over %d symbols - fill f with pattern A over 1/2/9 blocks, fill g with pattern B, truncate to aligned and unaligned sizes, grow, partial-block writes at several offsets, writes past the end, remove, re-create, restart; after every transition every file is read in full and compared byte for byte with the reference (a byte never written since the last truncation below it is 0; no pattern of another or deleted file); a third search (depth one less) from a file of 506 blocks of data, whose truncation or removal frees just as many blocks as one transaction can take (the free may stop a few blocks early), followed by growth and reuse of the inode number; plus every crash image of every history of depth <=%d over a sub-alphabet, recovered and compared byte-exactly with the prefix states; plus crash images (quick: 120 per history) of truncations of a 530-block file to sizes inside a block, whose freeing takes several background transactions: after recovery every surviving file is written across its end and grown (one recovery schedule) or written far beyond its end (the other), and the part in between must read as zeros", depth, len(al), cdepth)
 	s1 := RunSeq(r, "c12.tiny12", depth)
 	s2 := RunSeq(r, "c12.tiny40", depth)
-	r.Extra["searches"] = []*SeqSummary{s1, s2}
+	s3 := RunSeq(r, "c12.window", depth-1)
+	r.Extra["searches"] = []*SeqSummary{s1, s2, s3}
 	// crash images of recycling histories
 	sub := []fsx.Op{al[9], al[2], al[7], al[8], {K: "SETATTR", H: "root/f", Size: 100}, {K: "SETATTR", H: "root/f", Size: 5000}, {K: "WRITE", H: "root/g", Off: 4000, Cnt: 5000, Pat: 0x43, Stable: 2},
 		{K: "WRITE", H: "root/g", Off: 9*4096 + 7, Cnt: 50, Pat: 0x44, Stable: 0}, {K: "REMOVE", H: "root", N: "g"}, {K: "CREATE", H: "root", N: "f"}}
